@@ -29,6 +29,9 @@ pub struct Case {
     /// a pseudo thread that moves the clock into the next bucket when it is scheduled
     pub clock_step: bool,
     pub schedule: Vec<(u32, u8)>,
+    /// every exit is preceded by a clock advance of this many ms (0 = the clock stands still), so response times are not all 0
+    #[serde(default)]
+    pub exit_step_ms: u64,
 }
 
 pub fn decode(u: &mut Bytes) -> Case {
@@ -44,7 +47,8 @@ pub fn decode(u: &mut Bytes) -> Case {
     let schedule = decode_schedule(u, 5, 120);
     // added later (from the tail): the stale slot exactly one ring lap old
     let existing_resource = if existing_resource == 2 { [2u8, 3, 4][u.tail_choice(3)] } else { existing_resource };
-    Case { threads, existing_resource, clock_step, schedule }
+    let exit_step_ms = [0u64, 1, 3, 2][u.tail_choice(4)];
+    Case { threads, existing_resource, clock_step, schedule, exit_step_ms }
 }
 
 struct Obs {
@@ -55,6 +59,10 @@ struct Obs {
     inbound_passed: u64,
     inbound_completed: u64,
     blocked: u64,
+    /// bounds of the response-time total: an entry's response time is at least (clock just before exit - clock just
+    /// after build) and at most (clock just after exit - clock just before build); other threads may move the clock in between
+    rt_lower: u64,
+    rt_upper: u64,
 }
 
 pub struct Outcome {
@@ -84,18 +92,21 @@ pub fn execute(case: &Case, schedule: &[(u32, u8)], bytes_hex: &str) -> Result<O
     let t0 = clock::now_ms();
     let inbound = stat::inbound_node();
     let inb_conc0 = inbound.current_concurrency();
-    let obs = Arc::new(Mutex::new(Obs { node_ptrs: vec![], open: vec![], passed_tokens: 0, completed_tokens: 0, inbound_passed: 0, inbound_completed: 0, blocked: 0 }));
+    let obs = Arc::new(Mutex::new(Obs { node_ptrs: vec![], open: vec![], passed_tokens: 0, completed_tokens: 0, inbound_passed: 0, inbound_completed: 0, blocked: 0, rt_lower: 0, rt_upper: 0 }));
     let mut bodies: Vec<sched::Body> = Vec::new();
     for t in &case.threads {
         let t = t.clone();
         let res = res.clone();
         let obs = obs.clone();
+        let exit_step = case.exit_step_ms;
         bodies.push(Box::new(move || {
             for (batch, do_exit) in &t.pairs {
                 let mut req = Req::new(&res, *batch);
                 req.inbound = t.inbound;
+                let tb0 = clock::now_ms();
                 match build(req) {
                     Ok(e) => {
+                        let tb1 = clock::now_ms();
                         let ptr = e.context().read().unwrap().stat_node().map(|n| Arc::as_ptr(&n) as *const () as usize).unwrap_or(0);
                         {
                             let mut o = obs.lock().unwrap();
@@ -106,8 +117,13 @@ pub fn execute(case: &Case, schedule: &[(u32, u8)], bytes_hex: &str) -> Result<O
                             }
                         }
                         if *do_exit {
+                            clock::advance_ms(exit_step);
+                            let te0 = clock::now_ms();
                             e.exit();
+                            let te1 = clock::now_ms();
                             let mut o = obs.lock().unwrap();
+                            o.rt_lower += te0.saturating_sub(tb1);
+                            o.rt_upper += te1 - tb0;
                             o.completed_tokens += *batch as u64;
                             if t.inbound {
                                 o.inbound_completed += *batch as u64;
@@ -155,6 +171,10 @@ pub fn execute(case: &Case, schedule: &[(u32, u8)], bytes_hex: &str) -> Result<O
     let pass = long.sum(MetricEvent::Pass);
     let comp = long.sum(MetricEvent::Complete);
     let (pass, comp) = (pass - pre.min(pass), comp - pre.min(comp));
+    let rt = long.sum(MetricEvent::Rt);
+    if rt > o.rt_upper || ((!rollover_race || info.effective_preemptions == 0) && rt < o.rt_lower) {
+        return Err(("rt-total-mismatch".into(), format!("node response-time total {} ms, the entries' response times add up to between {} and {} ms (schedule {:?})", rt, o.rt_lower, o.rt_upper, schedule)));
+    }
     // events may be lost only if they RACED with a roll-over: when no preemption switched threads the operations of the
     // threads did not overlap, and the totals are exact whatever the slot held before
     if !rollover_race || info.effective_preemptions == 0 {
@@ -195,7 +215,7 @@ impl Property for C14 {
         true
     }
     fn rule(&self) -> String {
-        "bytes -> 2-3 threads x 1-2 build/exit pairs (batch 1..3, some entries left un-exited) on one fresh (or already existing) resource, inbound or outbound, clock fixed inside a bucket or moved into the next bucket by a pseudo thread, and a schedule of up to 5 preemptions (global schedule point, choice among the other runnable threads) for the cooperative scheduler that owns every std::sync operation of sentinel-core; plus (coverage.extra) exhaustive enumeration of all schedules with <= k preemptions (k = 2 quick, 3 thorough) for the 2-thread fresh-resource scenario; oracle after join: every entry's stat node is the registered node (Arc::ptr_eq), in-flight = un-exited entries, pass / complete totals equal the sums when the clock is fixed or when no preemption made operations overlap (also into a slot that holds a bucket 20 s old, exactly one ring lap old on the bucket boundary, or one lap old) and never exceed them across a roll-over, inbound in-flight delta = un-exited inbound entries; non-trivial = at least one preemption of the schedule actually switched threads; distinct = distinct (scenario, schedule)".into()
+        "bytes -> 2-3 threads x 1-2 build/exit pairs (batch 1..3, some entries left un-exited) on one fresh (or already existing) resource, inbound or outbound, clock fixed inside a bucket (optionally advanced by 1-3 ms before every exit, so that response times are not all 0) or moved into the next bucket by a pseudo thread, and a schedule of up to 5 preemptions (global schedule point, choice among the other runnable threads) for the cooperative scheduler that owns every std::sync operation of sentinel-core; plus (coverage.extra) exhaustive enumeration of all schedules with <= k preemptions (k = 2 quick, 3 thorough) for the 2-thread fresh-resource scenario; oracle after join: every entry's stat node is the registered node (Arc::ptr_eq), in-flight = un-exited entries, pass / complete totals equal the sums (and the response-time total lies between the bounds the threads observed) when the clock is fixed or when no preemption made operations overlap (also into a slot that holds a bucket 20 s old, exactly one ring lap old on the bucket boundary, or one lap old) and never exceed them across a roll-over, inbound in-flight delta = un-exited inbound entries; non-trivial = at least one preemption of the schedule actually switched threads; distinct = distinct (scenario, schedule)".into()
     }
     fn assumptions(&self) -> Vec<String> {
         vec![
@@ -247,6 +267,7 @@ impl C14 {
             existing_resource: 0,
             clock_step: false,
             schedule: vec![],
+            exit_step_ms: 2,
         };
         let k = if tier == Tier::Quick { 2 } else { 3 };
         let max_runs = if tier == Tier::Quick { 40_000 } else { 2_000_000 };
